@@ -66,12 +66,14 @@ def _pick_len(draw, lo, hi, spread=4):
 class Mut:
     """Single near-miss budget handed down the spec tree."""
 
-    def __init__(self, budget=1):
+    def __init__(self, budget=1, eager=False):
         self.budget = budget
         self.applied = None
+        self.eager = eager
 
     def take(self, draw, what, always=False):
-        if self.budget > 0 and (always or draw(st.booleans())):
+        if self.budget > 0 and (always or draw(st.integers(0, 4)) > 0 if self.eager
+                                else (always or draw(st.booleans()))):
             self.budget -= 1
             self.applied = what
             return True
@@ -442,6 +444,14 @@ def conforming(draw, spec):
 
 
 @st.composite
+def near_multi(draw, spec, budget=3):
+    """(value, n_applied): conforming except for up to `budget` near-miss steps at drawn nodes."""
+    m = Mut(budget, eager=True)
+    v = _gen(draw, spec, m)
+    return v, budget - m.budget
+
+
+@st.composite
 def near(draw, spec):
     """(value, applied-mutation-name|None): conforming except for at most one near-miss step."""
     m = Mut(1)
@@ -578,9 +588,11 @@ def _step(draw, x):
 
 
 @st.composite
-def perturb(draw, value):
+def perturb(draw, value, min_depth=0):
     """(new_value, path) exactly one structural step away from `value` at a drawn position."""
     ps = list(paths(value))
+    deep = [p for p in ps if len(p) >= min_depth]
+    ps = deep or ps
     # bias towards deeper positions
     ps.sort(key=len)
     p = draw(st.sampled_from(ps + ps[len(ps) // 2:]))
